@@ -158,6 +158,65 @@ impl PartialEq for StackObjectRef {
 
 impl Eq for StackObjectRef {}
 
+impl Drop for StackObjectRef {
+    /// Tear object graphs down iteratively.
+    ///
+    /// Containers own their items through further `StackObjectRef`s, so the default drop glue
+    /// recurses once per nesting level. A long pickle can nest tens of thousands of levels deep
+    /// (e.g. a run of TUPLE1 opcodes), and freeing such a graph recursively overflows the thread's
+    /// stack. When the last handle to a cell goes away, its children are moved onto a work list
+    /// and released from a loop instead.
+    fn drop(&mut self) {
+        if Rc::strong_count(&self.0) != 1 {
+            return;
+        }
+        let mut pending: Vec<StackObjectRef> = Vec::new();
+        Self::detach_children(&self.0, &mut pending);
+        while let Some(child) = pending.pop() {
+            if Rc::strong_count(&child.0) == 1 {
+                Self::detach_children(&child.0, &mut pending);
+            }
+            // `child` is dropped here with nothing left underneath it
+        }
+    }
+}
+
+impl StackObjectRef {
+    /// Move the direct children of `cell` into `out`, leaving the object childless.
+    fn detach_children(cell: &Rc<RefCell<StackObject>>, out: &mut Vec<StackObjectRef>) {
+        let Ok(mut obj) = cell.try_borrow_mut() else {
+            return;
+        };
+        match &mut *obj {
+            StackObject::List(items) | StackObject::Tuple(items) => out.append(items),
+            StackObject::Dict(map) => {
+                for (key, value) in map.drain() {
+                    out.push(key);
+                    out.push(value);
+                }
+            }
+            StackObject::Set(items) | StackObject::FrozenSet(items) => out.extend(items.drain()),
+            StackObject::Instance(inst) => {
+                out.push(std::mem::replace(
+                    &mut inst.callable,
+                    StackObjectRef::new(StackObject::None),
+                ));
+                out.push(std::mem::replace(
+                    &mut inst.args,
+                    StackObjectRef::new(StackObject::None),
+                ));
+            }
+            StackObject::Callable(inner) => {
+                out.push(std::mem::replace(
+                    inner,
+                    StackObjectRef::new(StackObject::None),
+                ));
+            }
+            _ => {}
+        }
+    }
+}
+
 /// Runtime value on the pickle virtual machine stack.
 ///
 /// Represents the various types of objects that can exist on the stack
